@@ -18,6 +18,7 @@ import (
 func c09Seam(r *report.Run) (string, int64) { return "(inside the seam child)", 0 }
 
 type seamEnvSmall struct {
+	F    float64
 	A    int
 	B    string
 	C    []int
@@ -62,6 +63,10 @@ func seamConfigs() []seamCfg {
 		add("struct, operators and const-expr", src, func() []expr.Option {
 			return []expr.Option{expr.Env(small), expr.Operator("+", "AddI", "AddS"), expr.ConstExpr("Up"), expr.ConstExpr("Twice")}
 		})
+	}
+	for _, src := range []string{"F in [5, 1, 3, 1, 4, 2]", `B in ["b", "a", "b", "c"]`, "A in [2, 1, 2]", "F not in [3, 3, 1, 2]"} {
+		src := src
+		add("literal array with repeated elements", src, func() []expr.Option { return []expr.Option{expr.Env(small)} })
 	}
 	for _, src := range []string{"a + len(b)", "f(a, 2) + c[0]", "a in c ? b : b + b", "x + y"} {
 		src := src
